@@ -307,12 +307,17 @@ func (e *Exec) describeBlocked() []string {
 // BlockedKey is a stable description of where threads were blocked (function
 // names without line numbers), used to key known findings.
 func (e *Exec) BlockedKey() string {
+	seen := map[string]bool{}
 	var out []string
 	for _, t := range e.threads {
 		if t.finished {
 			continue
 		}
-		out = append(out, fmt.Sprintf("%s@%s", t.pend.kind, SiteFuncShort(t.site)))
+		k := fmt.Sprintf("%s@%s", t.pend.kind, SiteFuncShort(t.site))
+		if !seen[k] {
+			seen[k] = true
+			out = append(out, k)
+		}
 	}
 	sort.Strings(out)
 	return strings.Join(out, ",")
@@ -1414,6 +1419,15 @@ func Note(format string, a ...interface{}) {
 func LiveThreads() int {
 	if e := cur; e != nil {
 		return len(e.threads) - e.finishedN
+	}
+	return 0
+}
+
+// Step returns the number of scheduling steps taken so far (drivers use it to
+// timestamp their own observations against the recorded trace).
+func Step() int {
+	if e := cur; e != nil {
+		return len(e.Points)
 	}
 	return 0
 }
